@@ -1,12 +1,25 @@
 package main
 
 // c18: RPC answers match the ledger, are bounded; the server survives bad input.
-//   paging  - random histories on the real node; every paged list API called in-process over the full
-//             uint32/uint64 range; oracles = the property's statement; cases = model correspondence
-//   json    - AccountBlock JSON -> parse -> same hash
-//   server  - in-process rpc/server fed malformed / huge / nested / batched requests (exploration, partial)
-import . "zharness/hz"
+//   paging   - random histories on the real node; every paged list API called in-process over the full
+//              uint32/uint64 range; oracles = the property's statement; cases = model correspondence
+//   json     - AccountBlock JSON -> parse -> same hash (every block type, descendants, contract receives); the text
+//              forms of the scalar fields field by field (boundary values, mutated / non-canonical texts) against
+//              the print/parse model (JsonText.v)
+//   server   - in-process rpc/server fed malformed / huge / nested / batched requests through ServeHTTP (recorder)
+//   hostile  - structured hostile JSON-RPC documents (single / batch, every element kind, damaged bytes) over every
+//              transport (http, websocket, ipc stream) of a server running in a CHILD process (rpcchild); reply
+//              shapes compared with the classifier model (RpcMsg.v)
+import (
+	"os"
+
+	. "zharness/hz"
+)
 
 func main() {
-	Main(map[string]Runner{"paging": runPaging, "json": runJson, "server": runServer, "rewards": runRewards})
+	if len(os.Args) > 3 && os.Args[1] == "rpcchild" {
+		rpcChildMain(os.Args[2:])
+		return
+	}
+	Main(map[string]Runner{"paging": runPaging, "json": runJson, "server": runServer, "rewards": runRewards, "hostile": runHostile})
 }
